@@ -454,6 +454,10 @@ func judge(o *runOut, k int, pub *PubSpec, zones []*simcf.Zone, pre, post map[st
 	occ := map[string]int{}     // record id -> occurrences so far
 	updated := map[string]int{} // record id -> results reporting updated
 	seenZones := map[string]bool{}
+	// a failure of the API must show somewhere: existing records that come back
+	// not-found because a request failed, with no result of the zone carrying an error
+	silentNotFound := map[string][]int{}
+	zoneReportsError := map[string]bool{}
 	for i, tg := range pub.Targets {
 		in := infos[i]
 		r := results[i]
@@ -463,6 +467,9 @@ func judge(o *runOut, k int, pub *PubSpec, zones []*simcf.Zone, pre, post map[st
 			note = " [target met an injected fault]"
 		}
 		seenZones[tg.Zone] = true
+		if r.Code == publish.StatusError {
+			zoneReportsError[tg.Zone] = true
+		}
 		switch r.Code {
 		case publish.StatusUpdated:
 			o.probe("status_updated")
@@ -518,6 +525,9 @@ func judge(o *runOut, k int, pub *PubSpec, zones []*simcf.Zone, pre, post map[st
 			if aff {
 				// the statement allows error / not-found for targets hit by a failure
 				hurt[tg] = hurt[tg] || !cur
+				if r.Code == publish.StatusNotFound {
+					silentNotFound[tg.Zone] = append(silentNotFound[tg.Zone], i)
+				}
 				continue
 			}
 			if r.Code == publish.StatusNotFound {
@@ -552,6 +562,13 @@ func judge(o *runOut, k int, pub *PubSpec, zones []*simcf.Zone, pre, post map[st
 		if hurt[tg] && !anyFault {
 			o.probe("converged_after_fault")
 			delete(hurt, tg)
+		}
+	}
+	for zone, idxs := range silentNotFound {
+		if !zoneReportsError[zone] {
+			o.fail("failure-unreported", "a request of the zone failed, existing records come back not-found and no result of the zone carries an error", "publish #%d: zone %s: targets %v are existing HTTPS records reported not-found; results %v", k, zone, idxs, codes)
+		} else {
+			o.probe("not_found_next_to_a_reported_error")
 		}
 	}
 	if len(seenZones) > 1 {
